@@ -113,9 +113,31 @@ impl Stage for EndToEnd {
                     any::<u64>(),
                 )
             })
-            .prop_map(|(v6, nodes, cluster_bits, lat, mut events, rt_seed)| {
+            .prop_map(move |(v6, nodes, cluster_bits, lat, mut events, rt_seed)| {
                 // every history starts with an announce so that there is something to find
                 events[0].announce = true;
+                if long && rt_seed % 5 < 2 {
+                    // structured schedule around renewal and expiry with several announcers: A
+                    // announces, B announces, A re-announces within 24 h, somebody searches when
+                    // B's 24 h are over but A's are not; the free-form tail follows
+                    let n = nodes.len() as u8;
+                    let r = |k: u64| crate::engine::splitmix(rt_seed ^ k);
+                    let (a, b) = (r(1) as u8 % n, (r(1) as u8 % n + 1 + r(2) as u8 % (n - 1).max(1)) % n);
+                    let c = r(3) as u8 % n;
+                    let h = (r(4) % 2) as u8;
+                    let g1 = 3_600_000 + r(5) % (19 * 3_600_000);
+                    let g2 = DAY - g1 + 125_000 + r(6) % 7_000_000;
+                    let mut t = vec![
+                        Evt { gap_ms: 1_200 + r(7) % 50_000, announce: true, node: a, hash: h, overlap: false },
+                        Evt { gap_ms: 1_200 + r(8) % 3_600_000, announce: true, node: b, hash: h, overlap: r(9) % 4 == 0 },
+                        Evt { gap_ms: g1, announce: true, node: a, hash: h, overlap: false },
+                        Evt { gap_ms: g2, announce: false, node: c, hash: h, overlap: r(10) % 3 == 0 },
+                        Evt { gap_ms: 1_200 + r(11) % 60_000, announce: false, node: (c + 1) % n, hash: h, overlap: false },
+                    ];
+                    events.truncate(2);
+                    t.extend(events);
+                    events = t;
+                }
                 Case { v6, nodes, cluster_bits, lat, events, rt_seed }
             })
             .boxed()
@@ -206,7 +228,7 @@ impl Stage for EndToEnd {
                                 "announced-peer-not-found",
                                 format!(
                                     "network of {n}: node {} searched hash {} from t={} to {} ms (relative {}), node {a}'s announcing search had ended {} ms earlier, but the stream ({} items: {:?}) lacks {addr}",
-                                    s.node, s.hash, s.start, s_end, s.start - t_base, s.start - last, s.found.len(), s.found.iter().take(6).collect::<Vec<_>>()
+                                    s.node, s.hash, s.start, s_end, s.start.saturating_sub(t_base), s.start.saturating_sub(last), s.found.len(), s.found.iter().take(6).collect::<Vec<_>>()
                                 ),
                             );
                         }
@@ -216,8 +238,8 @@ impl Stage for EndToEnd {
                     } else if must_not_find {
                         must_not += 1;
                         if has {
-                            let last = anns.iter().map(|o| o.end.unwrap()).max().unwrap();
-                            return Outcome::violation("expired-peer-still-found", format!("network of {n}: node {}'s search at t={} ms still yields {addr}; node {a}'s last announce ended {} ms earlier (> 24 h)", s.node, s.start, s.start - last));
+                            let last = anns.iter().map(|o| o.end.unwrap()).filter(|e| *e <= s.start).max().unwrap_or(0);
+                            return Outcome::violation("expired-peer-still-found", format!("network of {n}: node {}'s search at t={} ms still yields {addr}; node {a}'s last announce ended {} ms earlier (> 24 h)", s.node, s.start, s.start.saturating_sub(last)));
                         }
                     }
                 }
@@ -228,7 +250,7 @@ impl Stage for EndToEnd {
     }
     fn rule(&self) -> String {
         let span = if self.long {
-            "2..6 operations separated by gaps from {1.2..60 s, minutes..1 h, 24 h minus 1 min..2 h, 24 h plus 61 s..2 h, 1..12 h}; networks of 2..4 (thorough ..9) nodes"
+            "2..6 operations separated by gaps from {1.2..60 s, minutes..1 h, 24 h minus 1 min..2 h, 24 h plus 61 s..2 h, 1..12 h}, 40 % of the histories prefixed by a structured schedule (A announces, B announces, A re-announces 1..20 h later, searches when B's 24 h are over but A's are not); networks of 2..4 (thorough ..9) nodes"
         } else {
             "2..10 operations separated by gaps from {0..1.2 s, 1.2..60 s, 1..10 min, 10..60 min}; networks of 2..9 nodes"
         };
